@@ -16,21 +16,27 @@ T = 'urn:t'
 O = 'urn:o'
 # symbol -> (namespace, local name) of an instance child element
 SYM = {'a': (T, 'a'), 'b': (T, 'b'), 'c': (T, 'c'), 'm': (T, 'm'), 'f': (O, 'f'), 'u': (T, 'u'),
-       'x': (T, 'x'), 'k': (T, 'k'), 'z': ('', 'z'), 'p': (T, 'p'), 'q': (T, 'q'), 'j': (T, 'j')}
+       'x': (T, 'x'), 'k': (T, 'k'), 'z': ('', 'z'), 'p': (T, 'p'), 'q': (T, 'q'), 'j': (T, 'j'),
+       'h': (T, 'h'), 'i': (T, 'i')}
 # leaf kind -> symbols matched.  'a' is the head of a substitution group with member m and, through the
 # ABSTRACT member n (never usable itself), the second-level member k;
 # w = ##other (lax), W = ##any (lax), t = ##targetNamespace (lax).  u is an undeclared name in the
 # target namespace: only lax wildcards admitting that namespace accept it.
 LEAF = {
     'a': frozenset('amk'), 'b': frozenset('b'), 'c': frozenset('c'), 'm': frozenset('m'),
-    'w': frozenset('f'), 'W': frozenset('abcmkfuxz'), 't': frozenset('abcmkux'),
+    'w': frozenset('f'), 'W': frozenset('abcmkfuxzhi'), 't': frozenset('abcmkuxhi'),
     # l = ##local (lax), L = 'urn:o ##local' (lax); z is a child element in no namespace
     'l': frozenset('z'), 'L': frozenset('fz'),
     # local declarations of one name: x and z have type xs:string, y has type xs:int (EDC)
     'x': frozenset('x'), 'y': frozenset('x'), 'z': frozenset('x'),
     # XSD 1.1 only: two heads p and q that SHARE the member j (substitutionGroup="t:p t:q")
     'p': frozenset('pj'), 'q': frozenset('qj'), 'j': frozenset('j'),
+    # a head that BLOCKS substitution (block="substitution") and its would-be member: the member never stands in for
+    # the head, so the two particles do not compete
+    'h': frozenset('h'), 'i': frozenset('i'),
 }
+GLOBALS_BLOCKED = ('<xs:element name="h" type="xs:string" block="substitution"/>'
+                   '<xs:element name="i" type="xs:string" substitutionGroup="t:h"/>')
 GLOBALS_MULTIHEAD = ('<xs:element name="p" type="xs:string"/><xs:element name="q" type="xs:string"/>'
                      '<xs:element name="j" type="xs:string" substitutionGroup="t:p t:q"/>')
 LOCAL_TYPE = {'x': 'xs:string', 'y': 'xs:int', 'z': 'xs:string'}
@@ -168,6 +174,8 @@ def schema_text(models, open_content=None, wrap=None):
         body.append('<xs:element name="r%d"><xs:complexType>%s%s</xs:complexType></xs:element>'
                     % (i, oc, x))
     extra = GLOBALS_MULTIHEAD if any(l[1] in 'pqj' for m in models for l in leaves(m)) else ''
+    if any(l[1] in 'hi' for m in models for l in leaves(m)):
+        extra += GLOBALS_BLOCKED
     return HEAD + default_oc + GLOBALS + extra + ''.join(groups_all) + ''.join(body) + '</xs:schema>'
 
 
